@@ -182,7 +182,17 @@ impl SubCheck for Sweep {
             65 => { odur!("TimeDelta::try_weeks", TimeDelta::try_weeks(a)); odur!("TimeDelta::try_days", TimeDelta::try_days(a)); odur!("TimeDelta::try_hours", TimeDelta::try_hours(a)); }
             66 => { odur!("TimeDelta::try_minutes", TimeDelta::try_minutes(a)); odur!("TimeDelta::try_seconds", TimeDelta::try_seconds(a)); odur!("TimeDelta::try_milliseconds", TimeDelta::try_milliseconds(a)); }
             67 => { odur!("TimeDelta::checked_add", td.checked_add(&td2)); odur!("TimeDelta::checked_sub", td.checked_sub(&td2)); }
-            68 => { odur!("TimeDelta::checked_mul", td2.checked_mul(a as i32)); odur!("TimeDelta::checked_div", td2.checked_div(a as i32)); }
+            68 => {
+                odur!("TimeDelta::checked_mul", td2.checked_mul(a as i32));
+                odur!("TimeDelta::checked_div", td2.checked_div(a as i32));
+                // whole seconds * factor at the end of the 64-bit range, with a large sub-second part
+                let k = if (a as i32).unsigned_abs() > 1000 { a as i32 } else { [1_000_000, -1_000_000, 4096, -65_536, 1_000_003][(a.rem_euclid(5)) as usize] };
+                if let Some(x) = TimeDelta::new(i64::MAX / (k as i64).abs() + b.rem_euclid(5) - 2, 999_999_999 - (cc.rem_euclid(400_000_000)) as u32) {
+                    obs.label("seconds_product_at_i64_limit");
+                    odur!("TimeDelta::checked_mul", x.checked_mul(k));
+                    odur!("TimeDelta::checked_mul", (-x).checked_mul(k));
+                }
+            }
             69 => { let x = call("TimeDelta::abs", || td2.abs())?; inv_td("abs", &x)?; let y = call("TimeDelta neg", || -td2)?; inv_td("neg", &y)?; let _ = call("TimeDelta::to_std", || td2.to_std())?; }
             70 => { if let Ok(x) = call("TimeDelta::from_std", || TimeDelta::from_std(std::time::Duration::new(a as u64, (b as u32) % 1_000_000_000)))? { inv_td("from_std", &x)?; } }
             71 => { let _ = call("Month::num_days", || MONTHS[(b.rem_euclid(12)) as usize].num_days(a as i32))?; let _ = call("Month::try_from", || Month::try_from(a as u8))?; let _ = call("Weekday::try_from", || Weekday::try_from(a as u8))?; }
@@ -257,6 +267,12 @@ pub fn parse_everything(s: &str, f: &str) -> Result<bool, String> {
         if let Ok(x) = call("Parsed::to_datetime", || parsed.to_datetime())? { inv_dt("to_datetime after parse", &x)?; }
         let mut parsed = Parsed::new();
         let _ = call("format::parse_and_remainder", || chrono::format::parse_and_remainder(&mut parsed, s, items.iter()))?;
+        // the same items in their owned form (what parse_to_owned hands out)
+        let owned: Vec<Item<'static>> = items.iter().cloned().map(Item::to_owned).collect();
+        let mut parsed = Parsed::new();
+        let _ = call("format::parse (owned items)", || chrono::format::parse(&mut parsed, s, owned.iter()))?;
+        let mut parsed = Parsed::new();
+        let _ = call("format::parse_and_remainder (owned items)", || chrono::format::parse_and_remainder(&mut parsed, s, owned.iter()))?;
     }
     Ok(any_ok)
 }
